@@ -190,6 +190,7 @@ func c07Alphabet(quick bool) []SeqOp {
 		op(0, withData(withEF(L(0, 2, 2, 0, 60, 0, 1), efZeroAof), set)),
 		op(0, withData(withEF(L(0, 2, 2, 0, 60, 0, 1), efZeroAof), app)),
 		op(0, withF(withEF(L(0, 1, 1, 0, 90, 1, 2), efZeroAof), 0x02)),
+		op(1, withData(withEF(L(0, 3, 1, 0, 2, 0, 0), efZeroAof), protocol.NewLockCommandDataSetString("short-lived").Data)), // expires before most restarts
 		op(0, U(0, 1, 1)),
 		op(0, hapi.Cmd{Type: 2, Key: 1, Id: 1, Rcount: 1}),
 		op(0, U(0, 1, 2)),
